@@ -6,6 +6,11 @@ namespace AIToolbox::POMDP {
         static std::function<bool(const VerifSnapshot &)> observer;
         return observer;
     }
+
+    std::function<void(const SARSOP::VerifEvent &)> & SARSOP::verifEventObserver() {
+        static std::function<void(const VerifEvent &)> observer;
+        return observer;
+    }
 #endif
 
     SARSOP::SARSOP(double tolerance, double delta) :
